@@ -680,21 +680,244 @@ fn corpus_project_plugin() -> Project {
     Project::classic(files, true)
 }
 
+/// the smallest project with mirrored trees: outputs under `generated/…` repeat the component names of the inputs under
+/// `src/…` at the same depth, and a fragment is imported across two mirrored operation trees
+fn corpus_project_mirrored() -> Project {
+    let mut files = BTreeMap::new();
+    files.insert("graphql.config.yaml".into(), "schema: ./src/graphql/*.graphql\ndocuments:\n  - ./src/app/**/*.graphql\n  - ./lib/app/**/*.graphql\nextensions:\n  nitrogql:\n    generate:\n      mode: with-loader-ts-5.0\n      schemaOutput: ./generated/graphql/schema.d.ts\n      resolversOutput: ./generated/app/graphql/resolvers.d.ts\n".to_string());
+    files.insert("src/graphql/schema.graphql".into(), "type Query {\n  me: User!\n}\ntype User {\n  name: String\n}\n".into());
+    files.insert("src/app/q.graphql".into(), "#import F from \"../../lib/app/f.graphql\"\nquery Q {\n  me { ...F }\n}\n".into());
+    files.insert("lib/app/f.graphql".into(), "fragment F on User {\n  name\n}\n".into());
+    Project { files, has_import: true, schema_files: vec!["src/graphql/schema.graphql".into()], op_files: vec!["src/app/q.graphql".into(), "lib/app/f.graphql".into()] }
+}
+
+// ---- directory layouts of inputs and outputs
+//
+// A small pool of component names, so that equal names at equal depth under different roots (mirrored trees), names
+// differing only by case, dotted and dot-prefixed names all occur by construction and by chance.
+const DIR_NAMES: [&str; 16] = ["src", "graphql", "generated", "app", "Graphql", "GRAPHQL", "__generated__", "packages", "web", "api", "schema", "ops", "gql.types", "x-y", "lib", "a"];
+const DOT_NAMES: [&str; 2] = [".gen", ".cache"];
+
+fn rand_comp(rng: &mut Rng, allow_dot: bool) -> String {
+    if allow_dot && rng.chance(1, 8) {
+        rng.pick(&DOT_NAMES).to_string()
+    } else {
+        rng.pick(&DIR_NAMES).to_string()
+    }
+}
+fn rand_dir(rng: &mut Rng, min_depth: usize, max_depth: usize, allow_dot: bool) -> Vec<String> {
+    let d = min_depth + rng.below(max_depth - min_depth + 1);
+    (0..d).map(|_| rand_comp(rng, allow_dot)).collect()
+}
+fn flip_case(s: &str) -> String {
+    if s.chars().any(|c| c.is_ascii_lowercase()) {
+        if s.chars().next().map_or(false, |c| c.is_ascii_lowercase()) && s.len() % 2 == 0 {
+            let mut c = s.chars();
+            let f = c.next().unwrap().to_ascii_uppercase();
+            format!("{f}{}", c.as_str())
+        } else {
+            s.to_ascii_uppercase()
+        }
+    } else {
+        s.to_ascii_lowercase()
+    }
+}
+/// a directory related to `base`: the same, above, below, mirrored (one or two components replaced, the rest — also
+/// the components AFTER the replaced one — kept), differing by case only, shifted one level down, or unrelated
+fn derive_dir(rng: &mut Rng, base: &[String], allow_dot: bool) -> (Vec<String>, &'static str) {
+    let mut d: Vec<String> = base.to_vec();
+    let how = match rng.below(10) {
+        0 => "same",
+        1 => {
+            d.truncate(rng.below(d.len() + 1));
+            "above"
+        }
+        2 => {
+            for _ in 0..1 + rng.below(2) {
+                d.push(rand_comp(rng, allow_dot));
+            }
+            "below"
+        }
+        3 | 4 | 5 if !d.is_empty() => {
+            let i = rng.below(d.len());
+            let mut c = rand_comp(rng, allow_dot);
+            if c == d[i] {
+                c.push('2');
+            }
+            d[i] = c;
+            if d.len() > 1 && rng.chance(1, 3) {
+                let k = rng.below(d.len());
+                d[k] = format!("{}_", d[k]);
+            }
+            if rng.chance(1, 4) {
+                d.push(rand_comp(rng, allow_dot));
+            }
+            if d.len() == 1 || i == d.len() - 1 {
+                // nothing kept after the replaced component: make it a real mirror by keeping a common tail
+                let tail = rand_comp(rng, false);
+                d.push(tail);
+                "mirrored+tail"
+            } else {
+                "mirrored"
+            }
+        }
+        6 if !d.is_empty() => {
+            let i = rng.below(d.len());
+            d[i] = flip_case(&d[i]);
+            "case-only"
+        }
+        7 => {
+            d.insert(0, rand_comp(rng, allow_dot));
+            "shifted-down"
+        }
+        8 if d.len() > 1 => {
+            d.remove(0);
+            "shifted-up"
+        }
+        _ => {
+            d = rand_dir(rng, 0, 4, allow_dot);
+            "unrelated"
+        }
+    };
+    d.truncate(6);
+    (d, how)
+}
+fn join_dir(d: &[String], file: &str) -> String {
+    if d.is_empty() { file.to_string() } else { format!("{}/{file}", d.join("/")) }
+}
+fn is_prefix(a: &[String], b: &[String]) -> bool {
+    a.len() <= b.len() && a.iter().zip(b.iter()).all(|(x, y)| x == y)
+}
+/// how a path is written in the config: `./p`, `p`, or with a `x/..` detour that normalises away
+fn cfg_style(rng: &mut Rng, p: &str, detour: bool) -> String {
+    let mut q = p.to_string();
+    if detour && rng.chance(1, 8) {
+        let comps: Vec<&str> = p.split('/').collect();
+        let at = rng.below(comps.len());
+        let mut v: Vec<&str> = comps[..at].to_vec();
+        v.push("zz");
+        v.push("..");
+        v.extend(&comps[at..]);
+        q = v.join("/");
+    }
+    if rng.chance(2, 3) { format!("./{q}") } else { q }
+}
+
+struct Layout {
+    schema_dirs: Vec<Vec<String>>,
+    op_dirs: Vec<Vec<String>>,
+    schema_out: String,
+    resolvers_out: Option<String>,
+    server_out: Option<String>,
+    tags: Vec<String>,
+}
+
+fn gen_layout(rng: &mut Rng) -> Layout {
+    // inputs: globs do not descend into dot-prefixed directories, so inputs avoid them; outputs may use them
+    let mut tags = vec![];
+    let s0 = rand_dir(rng, 0, 4, false);
+    let mut schema_dirs = vec![s0.clone()];
+    if rng.chance(1, 3) {
+        let (d, how) = derive_dir(rng, &s0, false);
+        if !schema_dirs.contains(&d) {
+            tags.push(format!("schema-dir-2:{how}"));
+            schema_dirs.push(d);
+        }
+    }
+    // operation directories (recursive globs): depth >= 1 and never an ancestor of (or equal to) a schema directory
+    let nod = 1 + rng.below(3);
+    let mut op_dirs: Vec<Vec<String>> = vec![];
+    let mut guard = 0;
+    while op_dirs.len() < nod && guard < 40 {
+        guard += 1;
+        let base = if op_dirs.is_empty() || rng.coin() { rng.pick(&schema_dirs).clone() } else { rng.pick(&op_dirs).clone() };
+        let (d, how) = derive_dir(rng, &base, false);
+        if d.is_empty() || schema_dirs.iter().any(|sd| is_prefix(&d, sd)) || op_dirs.contains(&d) {
+            continue;
+        }
+        tags.push(format!("op-dir:{how}"));
+        op_dirs.push(d);
+    }
+    if op_dirs.is_empty() {
+        let mut d = s0.clone();
+        d.push("operations".to_string());
+        op_dirs.push(d);
+    }
+    let mut out = |rng: &mut Rng, names: &[&str], what: &str, tags: &mut Vec<String>| -> String {
+        let base = if rng.coin() { rng.pick(&schema_dirs).clone() } else { rng.pick(&op_dirs).clone() };
+        let (d, how) = derive_dir(rng, &base, true);
+        tags.push(format!("{what}:{how}:depth-{}", d.len()));
+        join_dir(&d, *rng.pick(names))
+    };
+    let schema_out = out(rng, &["schema.d.ts", "types.d.ts", "index.d.ts"], "schema-output", &mut tags);
+    let resolvers_out = if rng.coin() { Some(out(rng, &["resolvers.d.ts", "r.d.ts"], "resolvers-output", &mut tags)) } else { None };
+    let server_out = if rng.chance(1, 3) { Some(out(rng, &["server-schema.ts", "sdl.ts"], "server-graphql-output", &mut tags)) } else { None };
+    Layout { schema_dirs, op_dirs, schema_out, resolvers_out, server_out, tags }
+}
+
+/// the fixed layout of the first version of this generator
+fn classic_layout(rng: &mut Rng) -> Layout {
+    let so = *rng.pick(&["gen/schema.d.ts", "schema.d.ts", "a/b/types.d.ts", "ops/schema.d.ts"]);
+    let ro = if rng.coin() { Some(rng.pick(&["gen/resolvers.d.ts", "r.d.ts"]).to_string()) } else { None };
+    Layout { schema_dirs: vec![vec!["schema".to_string()]], op_dirs: vec![vec!["ops".to_string()]], schema_out: so.to_string(), resolvers_out: ro, server_out: None, tags: vec!["classic".to_string()] }
+}
+
+fn layout_yaml(rng: &mut Rng, l: &Layout, schema_files: &[String], mode: &str, plugins: &[&str]) -> String {
+    let mut s = String::new();
+    // schema: one glob per directory, or the explicit list of files (always for the project root, where a glob would
+    // also pick up nothing else but is indistinguishable from the documents)
+    let explicit = l.schema_dirs.iter().any(|d| d.is_empty()) || rng.chance(1, 4);
+    let schema_entries: Vec<String> = if explicit {
+        schema_files.iter().map(|f| cfg_style(rng, f, false)).collect()
+    } else {
+        l.schema_dirs.iter().map(|d| cfg_style(rng, &join_dir(d, "*.graphql"), false)).collect()
+    };
+    let doc_entries: Vec<String> = l.op_dirs.iter().map(|d| cfg_style(rng, &join_dir(d, "**/*.graphql"), false)).collect();
+    for (key, es) in [("schema", &schema_entries), ("documents", &doc_entries)] {
+        if es.len() == 1 && rng.coin() {
+            s.push_str(&format!("{key}: \"{}\"\n", es[0]));
+        } else {
+            s.push_str(&format!("{key}:\n"));
+            for e in es {
+                s.push_str(&format!("  - \"{e}\"\n"));
+            }
+        }
+    }
+    s.push_str("extensions:\n  nitrogql:\n");
+    if !plugins.is_empty() {
+        if rng.coin() {
+            s.push_str(&format!("    plugins: [{}]\n", plugins.iter().map(|p| format!("\"{p}\"")).collect::<Vec<_>>().join(", ")));
+        } else {
+            s.push_str("    plugins:\n");
+            for p in plugins {
+                s.push_str(&format!("      - \"{p}\"\n"));
+            }
+        }
+    }
+    s.push_str("    generate:\n");
+    s.push_str(&format!("      mode: {mode}\n      schemaOutput: {}\n", cfg_style(rng, &l.schema_out, true)));
+    if let Some(r) = &l.resolvers_out {
+        s.push_str(&format!("      resolversOutput: {}\n", cfg_style(rng, r, true)));
+    }
+    if let Some(r) = &l.server_out {
+        s.push_str(&format!("      serverGraphqlOutput: {}\n", cfg_style(rng, r, true)));
+    }
+    s
+}
+
 const MODEL_PLUGIN: &str = "nitrogql:model-plugin";
 const SCALARS_PLUGIN: &str = "nitrogql:graphql-scalars-plugin";
 
 fn gen_project(rng: &mut Rng) -> Project {
     let mut files = BTreeMap::new();
     let mode = *rng.pick(&["with-loader-ts-5.0", "with-loader-ts-4.0", "standalone-ts-4.0", "standalone-ts-4.0"]);
-    let so = *rng.pick(&["./gen/schema.d.ts", "./schema.d.ts", "./a/b/types.d.ts", "./ops/schema.d.ts"]);
-    let ro = if rng.coin() { Some(*rng.pick(&["./gen/resolvers.d.ts", "./r.d.ts"])) } else { None };
+    let layout = if rng.chance(1, 5) { classic_layout(rng) } else { gen_layout(rng) };
     // built-in plugins (they run inside the CLI, no host needed). The model plugin contributes a schema addition
     // (`directive @model`), which the CLI registers as a virtual schema file; the scalars plugin contributes one
     // only for a schema loaded from JavaScript, i.e. never here.
     let plugin_sets: [&[&str]; 7] = [&[], &[], &[], &[MODEL_PLUGIN], &[MODEL_PLUGIN], &[SCALARS_PLUGIN], &[SCALARS_PLUGIN, MODEL_PLUGIN]];
     let plugins: &[&str] = *rng.pick(&plugin_sets);
     let model = plugins.contains(&MODEL_PLUGIN);
-    files.insert("graphql.config.yaml".to_string(), config_yaml_plugins(mode, so, ro, plugins, rng.coin()));
     // ---- schema: object types T0..Tk-1 with scalar fields and links
     let k = 1 + rng.below(4);
     let scalars = ["Int", "String", "ID", "Boolean", "Float"];
@@ -781,17 +1004,37 @@ fn gen_project(rng: &mut Rng) -> Project {
             main.push_str(&t);
         }
     }
-    files.insert("schema/main.graphql".to_string(), main);
+    let mut schema_files = vec![join_dir(&layout.schema_dirs[0], "main.graphql")];
+    files.insert(schema_files[0].clone(), main);
     if two_files && !second.is_empty() {
-        files.insert("schema/second.graphql".to_string(), second);
+        schema_files.push(join_dir(layout.schema_dirs.last().unwrap(), "second.graphql"));
+        files.insert(schema_files[1].clone(), second);
+    } else if layout.schema_dirs.len() > 1 {
+        // every configured schema directory holds a file
+        schema_files.push(join_dir(&layout.schema_dirs[1], "extra.graphql"));
+        files.insert(schema_files[1].clone(), "\"only here so that the directory is not empty\"\nenum Extra {\n  A\n}\n".to_string());
     }
+    files.insert("graphql.config.yaml".to_string(), layout_yaml(rng, &layout, &schema_files, mode, plugins));
+    let mut op_files: Vec<String> = vec![];
     // ---- fragments (one per file), Fj on T(target j); a fragment may spread a later fragment of a linked type
     let nfrag = rng.below(4);
     let mut frag_type = vec![];
     for _ in 0..nfrag {
         frag_type.push(rng.below(k));
     }
-    let frag_path = |j: usize| -> String { if j % 2 == 0 { format!("ops/frags/f{j}.graphql") } else { format!("ops/f{j}.graphql") } };
+    // operation files are spread over the operation directories and sub-directories of them (a sub-directory may
+    // carry the name of a component of another tree)
+    let nod = layout.op_dirs.len();
+    let place: Vec<(usize, Option<String>)> = (0..8).map(|_| (rng.below(nod), if rng.coin() { None } else { Some(rng.pick(&["frags", "sub", "graphql", "src", "Ops"]).to_string()) })).collect();
+    let op_path = |slot: usize, file: String| -> String {
+        let (d, sub) = &place[slot];
+        let mut dir = layout.op_dirs[*d].clone();
+        if let Some(s) = sub {
+            dir.push(s.clone());
+        }
+        join_dir(&dir, &file)
+    };
+    let frag_path = |j: usize| -> String { op_path(j, format!("f{j}.graphql")) };
     let rel_import = |from: &str, to: &str| -> String {
         // both under ops/
         let fd: Vec<&str> = from.split('/').collect();
@@ -860,12 +1103,13 @@ fn gen_project(rng: &mut Rng) -> Project {
             s.push_str(&format!("  {x}\n"));
         }
         s.push_str("}\n");
+        op_files.push(path.clone());
         files.insert(path, s);
     }
     // ---- queries
     let nq = 1 + rng.below(3);
     for q in 0..nq {
-        let path = if q % 2 == 0 { format!("ops/q{q}.graphql") } else { format!("ops/sub/q{q}.graphql") };
+        let path = op_path(4 + q, format!("q{q}.graphql"));
         let mut imports: Vec<(String, String)> = vec![];
         let mut body = String::new();
         let mut local_frags = String::new();
@@ -922,9 +1166,11 @@ fn gen_project(rng: &mut Rng) -> Project {
             vars = format!("({})", defs.join(if rng.coin() { ", " } else { " " }));
         }
         s.push_str(&format!("query Q{q}{vars} {{\n{body}}}\n{local_frags}"));
+        op_files.push(path.clone());
         files.insert(path, s);
     }
-    Project { files, has_import }
+    files.insert("layout-tags.txt".to_string(), layout.tags.join("\n"));
+    Project { files, has_import, schema_files, op_files }
 }
 
 /// the file itself and every file reachable through `#import … from "path"` lines
@@ -1047,6 +1293,11 @@ impl<'a> Ctx<'a> {
         if p.files.iter().any(|(k, v)| p.schema_files.contains(k) && v.contains("@model")) {
             self.rep.count("e2e:project:schema-uses-plugin-directive");
         }
+        if let Some(t) = p.files.get("layout-tags.txt") {
+            for tag in t.lines() {
+                self.rep.count(&format!("e2e:layout:{tag}"));
+            }
+        }
         if cfg_text.contains("plugins:") {
             self.rep.count(&format!("e2e:project:plugins-configured:{}", if n_virtual > 0 { "with-schema-addition" } else { "no-schema-addition" }));
         }
@@ -1104,17 +1355,44 @@ impl<'a> Ctx<'a> {
             // SEGMENTS reference; an unreferenced entry for a virtual file is tolerated (counted), at most one per
             // plugin with a schema addition. A segment that references it is judged below.
             let mut virtual_idx: Vec<usize> = vec![];
+            // layout feature: does an input share a same-named component at the same depth with the map's directory
+            // AFTER the two paths diverged (mirrored trees)? / differ in case only at the point of divergence?
+            {
+                let md: Vec<String> = Path::new(&rel).parent().map(|d| d.components().map(|c| c.as_os_str().to_string_lossy().to_string()).collect()).unwrap_or_default();
+                let mut mirrored = false;
+                let mut case_only = false;
+                for f in p.schema_files.iter().chain(p.op_files.iter()) {
+                    let fc: Vec<&str> = f.split('/').collect();
+                    let common = md.iter().zip(fc.iter()).take_while(|(a, b)| a.as_str() == **b).count();
+                    mirrored |= md.iter().zip(fc.iter()).skip(common).any(|(a, b)| a.as_str() == *b);
+                    case_only |= md.get(common).zip(fc.get(common)).map_or(false, |(a, b)| a.to_lowercase() == b.to_lowercase());
+                }
+                if mirrored {
+                    self.rep.count("e2e:map:input-shares-component-after-divergence(mirrored-tree)");
+                }
+                if case_only {
+                    self.rep.count("e2e:map:input-diverges-by-case-only");
+                }
+                self.rep.count(&format!("e2e:map:directory-depth-{}", md.len()));
+            }
+            let mut non_input: Vec<(usize, PathBuf)> = vec![];
             for (six, s) in sources.iter().enumerate() {
                 let abs = normalize(&m.parent().unwrap().join(s));
                 if !inputs.contains(&abs) {
-                    if virtual_idx.len() < n_virtual && !abs.exists() {
-                        virtual_idx.push(six);
-                        self.rep.count("note:sources-lists-a-plugin's-virtual-file");
-                    } else {
-                        self.rep.fail("O", "e2e:source-not-an-input", &format!("{rel}: sources entry {s:?} resolves to {abs:?}, not a GraphQL input file"), case.clone());
-                    }
+                    non_input.push((six, abs.clone()));
                 }
                 src_texts.push(std::fs::read_to_string(&abs).unwrap_or_default());
+            }
+            self.rep.count("e2e:sources-entries-resolved-against-inputs");
+            if non_input.len() <= n_virtual && non_input.iter().all(|(_, abs)| !abs.exists()) {
+                for (six, _) in &non_input {
+                    virtual_idx.push(*six);
+                    self.rep.count("note:sources-lists-a-plugin's-virtual-file");
+                }
+            } else {
+                for (six, abs) in &non_input {
+                    self.rep.fail("O", "e2e:source-not-an-input", &format!("{rel}: sources entry {:?} resolves to {abs:?}, not a GraphQL input file ({} such entries, {n_virtual} virtual plugin file(s) configured; inputs {:?})", sources[*six], non_input.len(), p.schema_files.iter().chain(p.op_files.iter()).collect::<Vec<_>>()), case.clone());
+                }
             }
             // K: the `sources` list against the model of FileMap
             let is_op = op_of_map(&rel).is_some();
@@ -1553,6 +1831,7 @@ fn main() {
         ctx.project(&corpus_project_astral(), &cli, &scratch, 0);
         ctx.project(&corpus_project_standalone(), &cli, &scratch, 0);
         ctx.project(&corpus_project_plugin(), &cli, &scratch, 0);
+        ctx.project(&corpus_project_mirrored(), &cli, &scratch, 0);
         let nproj = args.budget(40, 400);
         for i in 0..nproj {
             let p = gen_project(&mut rng);
